@@ -66,3 +66,40 @@ Lemma gen_reports_errors : forall n (e : bool),
 Proof.
   intros. unfold g_reports. split; [reflexivity|]. intros. gen_split; try reflexivity; exfalso; lia.
 Qed.
+
+(* ---------------- off-chain configuration defaults ---------------- *)
+(* what each assignment of ensureMinimumDefaults does to the configuration *)
+Definition cfg_action (r : raw_cfg) (a : Z) : raw_cfg :=
+  match a with
+  | 1 => mkRaw 1200000 (rw_problen r) (rw_rounds r) (rw_minconf r) (rw_limit r) (rw_over r) (rw_batch r)
+  | 2 => mkRaw (rw_lockout r) 7 (rw_rounds r) (rw_minconf r) (rw_limit r) (rw_over r) (rw_batch r)
+  | 3 => mkRaw (rw_lockout r) (rw_problen r) 1 (rw_minconf r) (rw_limit r) (rw_over r) (rw_batch r)
+  | 4 => mkRaw (rw_lockout r) (rw_problen r) (rw_rounds r) 0 (rw_limit r) (rw_over r) (rw_batch r)
+  | 5 => mkRaw (rw_lockout r) (rw_problen r) (rw_rounds r) (rw_minconf r) 5300000%N (rw_over r) (rw_batch r)
+  | 6 => mkRaw (rw_lockout r) (rw_problen r) (rw_rounds r) (rw_minconf r) (rw_limit r) 300000%N (rw_batch r)
+  | 7 => mkRaw (rw_lockout r) (rw_problen r) (rw_rounds r) (rw_minconf r) (rw_limit r) (rw_over r) 1
+  | _ => r
+  end.
+
+Definition cfg_defaults_atoms (r : raw_cfg) : list Z * leaf :=
+  g_cfg_defaults (rw_lockout r) (rw_problen r) (rw_rounds r) (rw_minconf r)
+                 (Z.of_N (rw_limit r)) (Z.of_N (rw_over r)) (rw_batch r).
+
+Lemma ofN_eqb0 : forall x : N, Z.eqb (Z.of_N x) 0 = N.eqb x 0.
+Proof. intros. destruct (N.eqb_spec x 0); destruct (Z.eqb_spec (Z.of_N x) 0); try reflexivity; exfalso; lia. Qed.
+
+(* the model's ensure_defaults is the translated function: the assignments it performs, in order, applied to the
+   configuration; it always falls through *)
+Lemma gen_cfg_defaults : forall r,
+  ensure_defaults r = fold_left cfg_action (fst (cfg_defaults_atoms r)) r /\ snd (cfg_defaults_atoms r) = Fall.
+Proof.
+  intros [lo pl ro mc li ov ba]. unfold cfg_defaults_atoms, g_cfg_defaults, ensure_defaults.
+  cbn [rw_lockout rw_problen rw_rounds rw_minconf rw_limit rw_over rw_batch].
+  rewrite !ofN_eqb0.
+  destruct (lo <=? 0), (pl =? 0), (ro <=? 0), (mc <=? 0), (N.eqb li 0), (N.eqb ov 0), (ba <=? 0);
+    split; reflexivity.
+Qed.
+
+(* DecodeOffchainConfig applies the defaults to every configuration it returns without error *)
+Lemma gen_cfg_decode : g_cfg_decode false = ([1], RetO 2) /\ g_cfg_decode true = ([], RetO 1).
+Proof. split; reflexivity. Qed.
